@@ -13,3 +13,19 @@ spec fn class_name_emits(next: StepToken, src: Seq<char>, in_class: bool, prefix
     };
     sign_part + name_part
 }
+// ---- write_maybe_rpx_dimension (C10: "only rpx dimensions are converted; other numbers keep their value") ----
+/// value and integer view of the converted dimension: the arithmetic slice decided by the Kani unit RPX
+uninterp spec fn rpx_val(value: f32, ratio: f32) -> f32;
+uninterp spec fn rpx_int(value: f32, ratio: f32) -> Option<i32>;
+#[verifier::external_body]
+fn vx_rpx_arith(value: f32, ratio: f32) -> (r: (f32, Option<i32>))
+    ensures r.0 == rpx_val(value, ratio), r.1 == rpx_int(value, ratio),
+{ unimplemented!() }
+spec fn rpx_emits(next: StepToken, has_sign: bool, value: f32, int_value: Option<i32>, unit: Seq<char>, ratio: f32) -> Seq<Emit> {
+    let orig = TokV::Dimension { has_sign, value, int_value, unit };
+    if unit == seq!['r', 'p', 'x'] {
+        seq![Emit { tok: TokV::Dimension { has_sign, value: rpx_val(value, ratio), int_value: rpx_int(value, ratio), unit: seq!['v', 'w'] }, pos: next.position, src: Some(orig), keep_space: false }]
+    } else {
+        seq![Emit { tok: orig, pos: next.position, src: None, keep_space: false }]
+    }
+}
